@@ -102,6 +102,7 @@ structure Inv (pt : PTree) (done : List Endpoint) : Prop where
   tdom : ∀ q ov, (q, ov) ∈ pt.tree → ∃ p i, (p, i) ∈ pt.byUrl ∧ q = trunc p ∧ ov = entryVal p i
   tcov : ∀ p i, (p, i) ∈ pt.byUrl → (trunc p, entryVal p i) ∈ pt.tree
   bind : ∀ p i, (p, i) ∈ pt.byUrl → ∀ m, PMap.find? (pt.store.getD i []) m = polOf done m p
+  allwl : ∀ e ∈ done, wildLast e.parts = true
 
 theorem inv_empty : Inv .empty [] := by
   constructor <;> simp [PTree.empty, WildLast, NamesOK]
@@ -132,8 +133,13 @@ theorem addEndpoint_inv {pt pt' : PTree} {done : List Endpoint} {e : Endpoint}
         have hi : i < pt.store.length := (hinv.ixdom _ _ hmem).1
         have hnames := insertParts_namesOK hinv.names hins
         have hwl := insertParts_wildLast hinv.wl hins
+        have hallwl : ∀ x ∈ done ++ [e], wildLast x.parts = true := by
+          intro x hx
+          rcases List.mem_append.mp hx with hx | hx
+          · exact hinv.allwl x hx
+          · simp at hx; subst hx; exact validateParts_wildLast (insertParts_ok hins).1
         rw [insertParts_declared hins] at hnames hwl ⊢
-        refine ⟨hwl, hnames, ?_, hinv.ixfun, hinv.ixinj, ?_, ?_, ?_, ?_⟩
+        refine ⟨hwl, hnames, ?_, hinv.ixfun, hinv.ixinj, ?_, ?_, ?_, ?_, hallwl⟩
         · intro p j hm
           obtain ⟨h1, x, hx, hxp⟩ := hinv.ixdom p j hm
           exact ⟨by simpa [setStore] using h1, x, by simp [hx], hxp⟩
@@ -189,6 +195,11 @@ theorem addEndpoint_inv {pt pt' : PTree} {done : List Endpoint} {e : Endpoint}
         have hnone := UrlIndex.find?_none hf
         have hnames := insertParts_namesOK hinv.names hins
         have hwl := insertParts_wildLast hinv.wl hins
+        have hallwl : ∀ x ∈ done ++ [e], wildLast x.parts = true := by
+          intro x hx
+          rcases List.mem_append.mp hx with hx | hx
+          · exact hinv.allwl x hx
+          · simp at hx; subst hx; exact validateParts_wildLast (insertParts_ok hins).1
         rw [insertParts_declared hins] at hnames hwl ⊢
         have hnodone : ∀ x ∈ done, x.parts ≠ e.parts := by
           intro x hx hxp
@@ -201,7 +212,7 @@ theorem addEndpoint_inv {pt pt' : PTree} {done : List Endpoint} {e : Endpoint}
           rcases List.mem_append.mp hm with hm | hm
           · exact .inl hm
           · simp at hm; exact .inr hm
-        refine ⟨hwl, hnames, ?_, ?_, ?_, ?_, ?_, ?_, ?_⟩
+        refine ⟨hwl, hnames, ?_, ?_, ?_, ?_, ?_, ?_, ?_, hallwl⟩
         · intro p j hm
           simp only [List.length_append, List.length_cons, List.length_nil]
           rcases hsplit p j hm with hm | ⟨rfl, rfl⟩
@@ -310,24 +321,6 @@ theorem tree_aligned {pt : PTree} {es : List Endpoint} (hinv : Inv pt es) {u : U
   simp only [hq, flagsOK_trunc]
   simpa using this
 
-theorem tree_clean {pt : PTree} {es : List Endpoint} (hinv : Inv pt es) {u : Url}
-    (h : wildDisplaced es u = false) : Clean pt.tree u := by
-  intro ⟨w, wv⟩ hw n hn
-  obtain ⟨e, he, hq⟩ := hinv.dom hw
-  unfold wildDisplaced displaced at h
-  rw [List.any_eq_false] at h
-  have hw' := h w (by rw [hq]; exact List.mem_map.mpr ⟨e, he, rfl⟩)
-  simp only at hn
-  rw [hn] at hw'
-  simp only [Bool.or_eq_true, beq_iff_eq, not_or] at hw'
-  refine ⟨hw'.1, ?_⟩
-  intro ⟨q', ov'⟩ he'
-  obtain ⟨e', he'', hq'⟩ := hinv.dom he'
-  have := hw'.2
-  rw [Bool.not_eq_true, List.any_eq_false] at this
-  have := this q' (by rw [hq']; exact List.mem_map.mpr ⟨e', he'', rfl⟩)
-  simpa using this
-
 /-! ### the selection -/
 
 theorem select_some {pt : PTree} {m : String} {us : List Part} {i : Nat}
@@ -379,12 +372,12 @@ theorem enabled_flatMap_diags (l : List Endpoint) :
 
 /-- What `select` returning a policy means (with the lax-soundness of the lookup). -/
 theorem select_char {pt : PTree} {es : List Endpoint} (hinv : Inv pt es) {m : String} {us : List Part}
-    (hne : urlNonEmpty us = true) {pol : Policy} (h : (select pt m us).policy = some pol) :
+    {pol : Policy} (h : (select pt m us).policy = some pol) :
     ∃ q i e, (lookupParts pt.tree us).value = some i ∧ (q, some i) ∈ pt.tree ∧ matchesLax q us = true ∧
       pol = ⟨group es m q⟩ ∧ e ∈ es ∧ e.method = m ∧ e.parts = q ∧
       (∀ q', (q', some i) ∈ pt.tree → q' = q) := by
   obtain ⟨q, i, hl, _, hpol, hg, huniq⟩ := select_policy hinv h
-  obtain ⟨q', hq', hm⟩ := lookupParts_sound_lax pt.tree us i hinv.wl hne hl
+  obtain ⟨q', hq', hm⟩ := lookupParts_sound_lax' pt.tree us i hinv.wl hl
   have := huniq q' hq'
   subst this
   obtain ⟨e, he⟩ := List.exists_mem_of_ne_nil _ hg
@@ -394,7 +387,7 @@ theorem select_char {pt : PTree} {es : List Endpoint} (hinv : Inv pt es) {m : St
 /-- Shape shared by (S), (M), (P), (N): some declaration of the applied group is sound and has the extra
     property. -/
 theorem any_soundFor {pt : PTree} {es : List Endpoint} (hinv : Inv pt es) (g : Globals) (m : String)
-    (us : List Part) (hne : urlNonEmpty us = true) (hfl : boundaryMix es us = false)
+    (us : List Part) (hfl : boundaryMix es us = false)
     (extra : Endpoint → Bool)
     (hextra : ∀ q i e, (lookupParts pt.tree us).value = some i → (q, some i) ∈ pt.tree →
       (select pt m us).policy = some ⟨group es m q⟩ → e ∈ es → e.parts = q → extra e = true) :
@@ -404,7 +397,7 @@ theorem any_soundFor {pt : PTree} {es : List Endpoint} (hinv : Inv pt es) (g : G
   cases hp : (select pt m us).policy with
   | none => simp [observe, hp]
   | some pol =>
-    obtain ⟨q, i, e, hl, hq, hm, hpol, he, hem, hep, _⟩ := select_char hinv hne hp
+    obtain ⟨q, i, e, hl, hq, hm, hpol, he, hem, hep, _⟩ := select_char hinv hp
     have hpolv : (observe pt g m us).pol = some pol.url := by simp [observe, hp]
     rw [hpolv]
     simp only
@@ -443,9 +436,9 @@ theorem any_soundFor {pt : PTree} {es : List Endpoint} (hinv : Inv pt es) (g : G
       exact enabled_flatMap_diags _
 
 theorem soundOk_of_inv {pt : PTree} {es : List Endpoint} (hinv : Inv pt es) (g : Globals) (m : String)
-    (us : List Part) (hne : urlNonEmpty us = true) (hfl : boundaryMix es us = false) :
+    (us : List Part) (hfl : boundaryMix es us = false) :
     soundOk es m us (observe pt g m us) = true := by
-  have := any_soundFor hinv g m us hne hfl (fun _ => true) (fun _ _ _ _ _ _ _ _ => rfl)
+  have := any_soundFor hinv g m us hfl (fun _ => true) (fun _ _ _ _ _ _ _ _ => rfl)
   unfold soundOk
   cases hp : (observe pt g m us).pol with
   | none =>
@@ -461,29 +454,29 @@ theorem Inv.entry_uniq {pt : PTree} {es : List Endpoint} (hinv : Inv pt es) {q q
     (h : (q, some i) ∈ pt.tree) (h' : (q', some i) ∈ pt.tree) : q' = q :=
   hinv.ixinj _ _ _ (hinv.entry_some h') (hinv.entry_some h)
 
-/-- Outside the excluded classes the normalised URL IS the applied pattern and the parameters are the
-    bindings along that pattern. -/
+/-- The normalised URL IS the applied pattern and the parameters are the bindings along that pattern. -/
 theorem exact_of_inv {pt : PTree} {es : List Endpoint} (hinv : Inv pt es) (us : List Part)
-    (hne : urlNonEmpty us = true) (hfl : boundaryMix es us = false) (hwd : wildDisplaced es us = false)
+    (hfl : boundaryMix es us = false)
     {q : Pattern} {i : Nat} (hl : (lookupParts pt.tree us).value = some i) (hq : (q, some i) ∈ pt.tree) :
     (lookupParts pt.tree us).norm = q ∧ (lookupParts pt.tree us).params = bindParams [] q us := by
   have hmatch := lookGo_value_isMatch us pt.tree none [] [] i hl
-  obtain ⟨q', hq', _, hnorm, hpar⟩ := lookGo_exact us pt.tree [] [] hinv.wl hinv.names hne
-    (tree_aligned hinv hfl) (tree_clean hinv hwd) hmatch
-  have hl' : (lookGo pt.tree none [] [] us).value = some i := hl
-  rw [hl'] at hq'
-  have := hinv.entry_uniq hq hq'
-  subst this
-  unfold lookupParts
-  rw [hnorm, hpar]
-  simp
+  rcases lookGo_exact us pt.tree none [] [] hinv.wl hinv.names (tree_aligned hinv hfl) hmatch with
+    ⟨q', hq', _, hnorm, hpar⟩ | ⟨f, hf, _⟩
+  · have hl' : (lookGo pt.tree none [] [] us).value = some i := hl
+    rw [hl'] at hq'
+    have := hinv.entry_uniq hq hq'
+    subst this
+    unfold lookupParts
+    rw [hnorm, hpar]
+    simp
+  · simp at hf
 
 theorem most_specific_of_inv {pt : PTree} {es : List Endpoint} (hinv : Inv pt es) (us : List Part)
-    (hne : urlNonEmpty us = true) (hfl : boundaryMix es us = false)
+    (hfl : boundaryMix es us = false)
     {q : Pattern} {i : Nat} (hl : (lookupParts pt.tree us).value = some i) (hq : (q, some i) ∈ pt.tree)
     {e : Endpoint} (hep : e.parts = q) : mostSpecificFor es us e = true := by
   have hmatch : (lookupParts pt.tree us).isMatch = true := lookGo_value_isMatch us pt.tree none [] [] i hl
-  obtain ⟨q', hq', _, hall⟩ := lookupParts_most_specific pt.tree us hinv.wl hne (tree_aligned hinv hfl) hmatch
+  obtain ⟨q', hq', _, hall⟩ := lookupParts_most_specific' pt.tree us hinv.wl (tree_aligned hinv hfl) hmatch
   rw [hl] at hq'
   have := hinv.entry_uniq hq hq'
   subst this
@@ -536,13 +529,6 @@ theorem cfgBoundaryMix_false {es : List Endpoint} (h : cfgBoundaryMix es = false
   have := this e1 h1
   simpa using this
 
-theorem starQuirk_false {es : List Endpoint} (h : starQuirk es = false) :
-    ∀ e ∈ es, wildLast e.parts = true := by
-  intro e he
-  unfold starQuirk at h
-  rw [List.any_eq_false] at h
-  simpa using h e he
-
 theorem tree_partsOK {pt : PTree} {es : List Endpoint} (hinv : Inv pt es)
     (hfl : ∀ e1 ∈ es, ∀ e2 ∈ es, flagsOK e1.parts e2.parts = true) : PartsOK pt.tree := by
   intro ⟨q1, v1⟩ h1 ⟨q2, v2⟩ h2
@@ -552,9 +538,9 @@ theorem tree_partsOK {pt : PTree} {es : List Endpoint} (hinv : Inv pt es)
   simp only [hq1, hq2]
   exact hostsAgree_of_flagsOK _ _ (hfl e1 he1 e2 he2)
 
-/-- Without inner `*`, entries with the same pattern carry the same value. -/
-theorem tree_rcoh {pt : PTree} {es : List Endpoint} (hinv : Inv pt es)
-    (hwl : ∀ e ∈ es, wildLast e.parts = true) : RCoh pt.tree := by
+/-- Entries with the same pattern carry the same value. -/
+theorem tree_rcoh {pt : PTree} {es : List Endpoint} (hinv : Inv pt es) : RCoh pt.tree := by
+  have hwl := hinv.allwl
   intro ⟨q1, v1⟩ h1 ⟨q2, v2⟩ h2 heq
   simp only at heq
   subst heq
@@ -630,18 +616,16 @@ theorem tree_sim {pt pt' : PTree} {es es' : List Endpoint} (hinv : Inv pt es) (h
 /-- Two builds of the same declarations (any orders): same lookup outcome, normalised URL and parameters;
     the selected policies consist of the same declarations. -/
 theorem select_perm {pt pt' : PTree} {es es' : List Endpoint} (hinv : Inv pt es) (hinv' : Inv pt' es')
-    (hp : es.Perm es') (hfl : cfgBoundaryMix es = false) (hsq : starQuirk es = false)
+    (hp : es.Perm es') (hfl : cfgBoundaryMix es = false)
     (m : String) (us : List Part) :
     (select pt m us).hasValue = (select pt' m us).hasValue ∧
     PolRel (select pt m us).policy (select pt' m us).policy ∧
     (select pt m us).norm = (select pt' m us).norm ∧
     (select pt m us).params = (select pt' m us).params := by
-  have hwl := starQuirk_false hsq
-  have hwl' : ∀ e ∈ es', wildLast e.parts = true := fun e he => hwl e (hp.mem_iff.mpr he)
   have hR0 : ValRel pt pt' none none := ⟨Iff.rfl, fun _ => by simp [polAt, PolRel]⟩
   obtain ⟨_, hval, hpar, hnorm⟩ := lookGo_sim (R := ValRel pt pt') hR0 (fun ov ov' h => h.1) us
     pt.tree pt'.tree none none [] [] (tree_sim hinv hinv' hp) (tree_partsOK hinv (cfgBoundaryMix_false hfl))
-    hinv.wl (tree_rcoh hinv hwl) (tree_rcoh hinv' hwl') (.inl ⟨rfl, rfl⟩)
+    hinv.wl (tree_rcoh hinv) (tree_rcoh hinv') (.inl ⟨rfl, rfl⟩)
   have hl : lookGo pt.tree none [] [] us = lookupParts pt.tree us := rfl
   have hl' : lookGo pt'.tree none [] [] us = lookupParts pt'.tree us := rfl
   rw [hl, hl'] at hval hpar hnorm
